@@ -33,16 +33,12 @@ Definition pickle_query_result {I} (fetched : option (list I)) (fetch : list I) 
   match fetched with Some items => items | None => fetch end.
 Definition unpickle_query_result {I J} (unpickle_item : I -> J) (items : list I) : list J := map unpickle_item items.
 
-(* SetInstance.__reduce__ = (unpickle_setwrapper, (obj, attr name, copy of the items)).  unpickle_setwrapper IGNORES the items: it
-   takes (or creates, empty) the SetData of obj in the current session and marks it fully loaded.  What the set then contains is
-   what unpickling the ITEMS put there through their own reference to obj (db_update_reverse) -- possible for a one-to-many
-   collection when the item's reference was loaded at pickling time, impossible for many-to-many (collections are not pickled). *)
+(* SetInstance.__reduce__ = (unpickle_setwrapper, (obj, attr name, copy of the items)).  unpickle_setwrapper takes (or creates) the
+   SetData of obj in the current session, adds the pickled items (`setdata.update(items)`) and marks it fully loaded -- for
+   one-to-many and many-to-many collections alike (unpickling a one-to-many item also restores its reference: no new element) *)
 Inductive relkind := OneToMany | ManyToMany.
 Definition unpickle_set (k : relkind) (here : list nat) (items : list nat) (ref_loaded : nat -> bool) : list nat :=
-  match k with
-  | OneToMany => here ++ filter (fun i => ref_loaded i && negb (existsb (Nat.eqb i) here)) items
-  | ManyToMany => here
-  end.
+  here ++ filter (fun i => negb (existsb (Nat.eqb i) here)) items.
 
 Definition ovals_eqb (a b : option Z) : bool := match a, b with None, None => true | Some x, Some y => x =? y | _, _ => false end.
 Fixpoint natlist_eqb (a b : list nat) : bool :=
